@@ -4,6 +4,8 @@ import Rare.Proofs.C04Tie
 import Rare.Proofs.C04More
 import Rare.Proofs.C04Held
 import Rare.Proofs.C04Order
+import Rare.Proofs.C04Fuel
+import Rare.Proofs.C04Micro
 import Rare.Proofs.Batcher
 import Rare.Model.C04Sync
 import Rare.Gen.C04
@@ -613,5 +615,89 @@ theorem imm_slices_ordered_disjoint (bufSize : Nat) (data : Bytes) (script : Lis
   ⟨(scanAll_sorted fuel k _).2, fun vb h => ((scanAll_sorted fuel k _).1 vb h).2⟩
 
 example : (Imm.run 4 [97, 10, 98, 10, 99, 99, 99, 99, 10] []).1.map (·.1) = [⟨0, 0, 1⟩, ⟨0, 2, 3⟩, ⟨2, 0, 4⟩] := by decide
+
+/-! ## Round 4c: the buffered scanner's slices are disjoint too; fuel is irrelevant; `Scan()` is a path of the listed
+    micro-steps and held slices are intact at every intermediate state -/
+
+/-- The buffered twin of `imm_slices_ordered_disjoint`: the slices `BufferedReadAhead` hands out never overlap - in
+    hand-out order each lies in a later backing array than an earlier one, or in the same array at or after the earlier
+    one's end - and each is a proper range.  Every `maxBufLen` (the panicking 0 and 1 included: purely positional),
+    every chunking / stall / fault script, every number of calls, every fuel. -/
+theorem buf_slices_ordered_disjoint (m : Nat) (data : Bytes) (script : List Step) (fuel k : Nat) :
+    List.Pairwise (fun a b : View × Bytes =>
+        a.1.arr < b.1.arr ∨ (a.1.arr = b.1.arr ∧ a.1.stop ≤ b.1.start))
+      (Buf.scanAll fuel k (Buf.init m ⟨data, script⟩)).1 ∧
+    ∀ vb ∈ (Buf.scanAll fuel k (Buf.init m ⟨data, script⟩)).1, vb.1.start ≤ vb.1.stop :=
+  ⟨(bscanAll_sorted fuel k _).2, fun vb h => ((bscanAll_sorted fuel k _).1 vb h).2⟩
+
+example : (Buf.run 4 [97, 10, 98, 10, 99, 99, 99, 99, 10] []).1.map (·.1) = [⟨1, 0, 1⟩, ⟨1, 2, 3⟩, ⟨3, 0, 4⟩] := by decide
+
+/-- The fuel of the model is an artefact of totality, not a bound on the code's loops: (1), (2) for EVERY state, a
+    `Scan()` that did not stop for lack of fuel gives the same answer and the same state with any larger fuel; (3),
+    (4) from the initial state, every recursion fuel and every number of calls at or above the ones `run` uses give
+    exactly `run`'s slices, verdict and final state.  So every theorem about `Imm.run` / `Buf.run` is a theorem about
+    the unbounded `for` loops of the code. -/
+theorem fuel_irrelevant (n : Nat) (data : Bytes) (script : List Step) :
+    (∀ (s : Imm) (f g : Nat), (s.scan f).1 ≠ .fuel → s.scan (f + g) = s.scan f) ∧
+    (∀ (s : Buf) (f g : Nat), (s.scan f).1 ≠ .fuel → s.scan (f + g) = s.scan f) ∧
+    (1 ≤ n → ∀ F N, data.length + script.length + 3 ≤ F → data.length + script.length + 3 ≤ N →
+      Imm.scanAll F N (Imm.init n ⟨data, script⟩) = Imm.run n data script) ∧
+    (2 ≤ n → ∀ F N, data.length + script.length + 3 ≤ F → data.length + script.length + 3 ≤ N →
+      Buf.scanAll F N (Buf.init n ⟨data, script⟩) = Buf.run n data script) := by
+  refine ⟨fun s f g => scan_fuel_mono f g s, fun s f g => bscan_fuel_mono f g s, fun h F N hF hN => ?_,
+    fun h F N hF hN => ?_⟩
+  · obtain ⟨g, rfl⟩ : ∃ g, F = (data.length + script.length + 3) + g := ⟨F - (data.length + script.length + 3), by omega⟩
+    obtain ⟨k, rfl⟩ : ∃ k, N = (data.length + script.length + 3) + k := ⟨N - (data.length + script.length + 3), by omega⟩
+    rw [scanAll_fuel_mono _ g _ (good_init n ⟨data, script⟩ h) (by simp [Imm.init, Reader.measure]; omega)]
+    exact scanAll_calls_mono _ _ k _ (imm_terminates n data script h)
+  · obtain ⟨g, rfl⟩ : ∃ g, F = (data.length + script.length + 3) + g := ⟨F - (data.length + script.length + 3), by omega⟩
+    obtain ⟨k, rfl⟩ : ∃ k, N = (data.length + script.length + 3) + k := ⟨N - (data.length + script.length + 3), by omega⟩
+    rw [bscanAll_fuel_mono _ g _ (bgood_init n ⟨data, script⟩ h) (by simp [Buf.init, Reader.measure]; omega)]
+    exact bscanAll_calls_mono _ _ k _ (buf_terminates n data script h)
+
+example : Imm.scanAll 100 50 (Imm.init 2 ⟨[97, 10, 98], [⟨0, none⟩]⟩) = Imm.run 2 [97, 10, 98] [⟨0, none⟩] :=
+  (fuel_irrelevant 2 [97, 10, 98] [⟨0, none⟩]).2.2.1 (by decide) 100 50 (by decide) (by decide)
+
+/-- `Scan()` IS a sequence of the listed micro-steps (`Imm.Micro`: regrow = allocate + copy; a `Read` into the free
+    part `buf[end:]`, only with room; the error flag + callback, only right after the failing `Read`; handing out a
+    terminated line; handing out the tail, only with `eof` set - `Buf.Micro`: the same for the buffered scanner with
+    the allocation of the refill and the `Read`s of its fill loop as separate steps): for every state (immediate:
+    `bufSize ≥ 1`), every fuel and every number of calls, `scan` / `scanAll` go from the state to their final state
+    along a path of such steps that hands out exactly their slices, in order.  The model has no state change outside
+    these steps, so `held_slice_survives_every_step` covers every moment of every scan. -/
+theorem scan_is_path_of_micro_steps :
+    (∀ (s : Imm) (f : Nat), 1 ≤ s.bufSize → Imm.Path (fun _ => True) s (s.scan f).1.toks (s.scan f).2) ∧
+    (∀ (s : Imm) (f k : Nat), 1 ≤ s.bufSize → Imm.Path (fun _ => True) s (s.scanAll f k).1 (s.scanAll f k).2.2) ∧
+    (∀ (s : Buf) (f : Nat), Buf.Path (fun _ => True) s (s.scan f).1.toks (s.scan f).2) ∧
+    (∀ (s : Buf) (f k : Nat), Buf.Path (fun _ => True) s (s.scanAll f k).1 (s.scanAll f k).2.2) :=
+  ⟨fun s f h => scan_path f s h, fun s f k h => scanAll_path f k s h, fun s f => bscan_path f s,
+   fun s f k => bscanAll_path f k s⟩
+
+/-- "For as long as the caller holds it while later lines are scanned", at the finest grain: a slice handed out by one
+    of the first `j` calls of `Scan()` is a valid range of its array and reads back as its line in EVERY intermediate
+    state (after each single micro-step: in the middle of a regrow / refill, between two `Read`s of one call, between
+    the failing `Read` and the error callback, ...) of the following `k` calls - not only at call boundaries
+    (`held_slices_intact_at_every_call`).  This is what a consumer goroutine working on a batch sees while the reader
+    goroutine is anywhere inside `Scan()`.  Both scanners, every script, every fuel. -/
+theorem held_slices_intact_at_every_intermediate_state (n : Nat) (data : Bytes) (script : List Step) (fuel j k : Nat) :
+    (1 ≤ n → ∀ vb ∈ (Imm.scanAll fuel j (Imm.init n ⟨data, script⟩)).1,
+      Imm.Path (fun t => ViewOK t.arrays vb.1 ∧ readView t.arrays vb.1 = vb.2)
+        (Imm.scanAll fuel j (Imm.init n ⟨data, script⟩)).2.2
+        ((Imm.scanAll fuel j (Imm.init n ⟨data, script⟩)).2.2.scanAll fuel k).1
+        ((Imm.scanAll fuel j (Imm.init n ⟨data, script⟩)).2.2.scanAll fuel k).2.2) ∧
+    (2 ≤ n → 0 < fuel → ∀ vb ∈ (Buf.scanAll fuel j (Buf.init n ⟨data, script⟩)).1,
+      Buf.Path (fun t => ViewOK t.arrays vb.1 ∧ readView t.arrays vb.1 = vb.2)
+        (Buf.scanAll fuel j (Buf.init n ⟨data, script⟩)).2.2
+        ((Buf.scanAll fuel j (Buf.init n ⟨data, script⟩)).2.2.scanAll fuel k).1
+        ((Buf.scanAll fuel j (Buf.init n ⟨data, script⟩)).2.2.scanAll fuel k).2.2) := by
+  refine ⟨fun h vb hvb => ?_, fun h hf vb hvb => ?_⟩
+  · apply path_keeps_view (scanAll_path fuel k _ ?_) vb.1 vb.2 (scanAll_viewsOK fuel j (good_init n ⟨data, script⟩ h) vb hvb)
+    rw [scanAll_bufSize]; exact h
+  · exact bpath_keeps_view (bscanAll_path fuel k _) vb.1 vb.2 (bscanAll_viewsOK fuel hf j (bgood_init n ⟨data, script⟩ h) vb hvb)
+
+/-- Non-vacuity: the path of one `Scan()` that regrows (a held slice in array 0, the scan continues in array 1). -/
+example : (Imm.scanAll 9 1 (Imm.init 2 ⟨[97, 10, 98, 98, 98, 10], []⟩)).1 = [(⟨0, 0, 1⟩, [97])] ∧
+    ((Imm.scanAll 9 1 (Imm.init 2 ⟨[97, 10, 98, 98, 98, 10], []⟩)).2.2.scanAll 9 1).1 = [(⟨2, 0, 3⟩, [98, 98, 98])] := by
+  decide
 
 end Rare.C04
